@@ -116,6 +116,18 @@ static int intr_sse(const char *f, int imm, reg_t *a, reg_t *b, reg_t *m, reg_t 
 #define F13(i) r->i128 = _mm_alignr_epi8(a->i128, b->i128, i)
     SW33(F13) return 16; }
   if (IS("_mm_move_ss"))       { r->f128 = _mm_move_ss(a->f128, b->f128); return 16; }
+  /* scalar extractions: the value is cut to the lane width `w` of the calling helper's view (the C cast `(uint8_t)`, `(int16_t)` … there) */
+  if (IS("_mm_extract_epi16")) { int wb = (int) h_argi("w", 16) / 8;
+#define F20(i) iv = _mm_extract_epi16(a->i128, i)
+    switch (imm) { C4(F20,0) C4(F20,4) default: return 0; } memcpy(r->b, &iv, 4); return wb <= 2 ? wb : 0; }
+  if (IS("_mm_cvtsi128_si32")) { int wb = (int) h_argi("w", 32) / 8; iv = _mm_cvtsi128_si32(a->i128); memcpy(r->b, &iv, 4); return wb <= 4 ? wb : 0; }
+  if (IS("_mm_store_ss"))      { float fv; _mm_store_ss(&fv, a->f128); memcpy(r->b, &fv, 4); return 4; }
+  if (IS("_mm_setzero_ps"))    { memset(r->b, 0xff, 16); r->f128 = _mm_setzero_ps(); return 16; }
+  if (IS("_mm_setzero_si128")) { memset(r->b, 0xff, 16); r->i128 = _mm_setzero_si128(); return 16; }
+  if (IS("_mm_set1_ps"))       { float fv; memcpy(&fv, a->b, 4); r->f128 = _mm_set1_ps(fv); return 16; }
+  if (IS("_mm_set1_epi32"))    { memcpy(&iv, a->b, 4); r->i128 = _mm_set1_epi32(iv); return 16; }
+  if (IS("_mm_castps_si128"))  { r->i128 = _mm_castps_si128(a->f128); return 16; }
+  if (IS("_mm_castsi128_ps"))  { r->f128 = _mm_castsi128_ps(a->i128); return 16; }
   if (IS("_mm_max_epu8"))      { r->i128 = _mm_max_epu8(a->i128, b->i128); return 16; }
   if (IS("_mm_max_epi8"))      { r->i128 = _mm_max_epi8(a->i128, b->i128); return 16; }
   if (IS("_mm_max_epi16"))     { r->i128 = _mm_max_epi16(a->i128, b->i128); return 16; }
@@ -177,6 +189,15 @@ static int intr_avx(const char *f, int imm, reg_t *a, reg_t *b, reg_t *r)
   if (IS("_mm256_alignr_epi8")) {
 #define F14(i) r->i256 = _mm256_alignr_epi8(a->i256, b->i256, i)
     SW33(F14) return 32; }
+  if (IS("_mm256_extract_epi8"))  { int wb = (int) h_argi("w", 8) / 8;
+#define F21(i) iv = _mm256_extract_epi8(a->i256, i)
+    switch (imm) { C16(F21,0) C16(F21,16) default: return 0; } memcpy(r->b, &iv, 4); return wb <= 1 ? wb : 0; }
+  if (IS("_mm256_extract_epi16")) { int wb = (int) h_argi("w", 16) / 8;
+#define F22(i) iv = _mm256_extract_epi16(a->i256, i)
+    switch (imm) { C16(F22,0) default: return 0; } memcpy(r->b, &iv, 4); return wb <= 2 ? wb : 0; }
+  if (IS("_mm256_extract_epi32")) { int wb = (int) h_argi("w", 32) / 8;
+#define F23(i) iv = _mm256_extract_epi32(a->i256, i)
+    switch (imm) { C4(F23,0) C4(F23,4) default: return 0; } memcpy(r->b, &iv, 4); return wb <= 4 ? wb : 0; }
   if (IS("_mm256_max_epu8"))    { r->i256 = _mm256_max_epu8(a->i256, b->i256); return 32; }
   if (IS("_mm256_max_epi8"))    { r->i256 = _mm256_max_epi8(a->i256, b->i256); return 32; }
   if (IS("_mm256_max_epi16"))   { r->i256 = _mm256_max_epi16(a->i256, b->i256); return 32; }
